@@ -429,16 +429,24 @@ pub fn max(exprs: impl IntoIterator<Item = impl Into<Expr>>) -> Expr {
 }
 
 pub fn sum(exprs: impl IntoIterator<Item = impl Into<Expr>>) -> Expr {
-    let mut iter = exprs.into_iter();
-    if let Some(first) = iter.next() {
-        let mut res = first.into();
-        for item in iter {
-            res = Expr::BinOp(BinOp::Add, Box::new(res), Box::new(item.into()));
+    // a balanced tree in the order of the terms, like the `sum` of the text
+    // language: a chain grows as deep as it is long, and compiling a sum of
+    // some thousand terms overflowed the stack
+    fn balanced(mut terms: Vec<Expr>) -> Expr {
+        match terms.len() {
+            0 => Expr::Number(0.0),
+            1 => terms.pop().unwrap_or(Expr::Number(0.0)),
+            n => {
+                let right = terms.split_off(n / 2);
+                Expr::BinOp(
+                    BinOp::Add,
+                    Box::new(balanced(terms)),
+                    Box::new(balanced(right)),
+                )
+            }
         }
-        res
-    } else {
-        Expr::Number(0.0)
     }
+    balanced(exprs.into_iter().map(|e| e.into()).collect())
 }
 
 pub fn all(exprs: impl IntoIterator<Item = impl Into<Expr>>) -> Expr {
